@@ -14,13 +14,15 @@ Open Scope Z_scope.
 (* ------------------------------------------------------------------------------------------ *)
 (* SM3                                                                                          *)
 (* ------------------------------------------------------------------------------------------ *)
-Definition sm3_param (p : list Z) : layout :=
-  Node KSM3Param [] [list_of (map (fun s => Leaf [s] F32) p); qv_i8 p].
+(* [d]: dtype of the parameters.  Accumulators are float32 (jnp.zeros default), the int8 momentum's
+   bucket sizes have the dtype of the quantized value. *)
+Definition sm3_param (d : dtype) (p : list Z) : layout :=
+  Node KSM3Param [] [list_of (map (fun s => Leaf [s] F32) p); qv_i8 d p].
 
 (* quantization_utils.quantize raises for a 0-d momentum buffer *)
-Definition sm3_init (t : layout) : outcome layout :=
+Definition sm3_init (d : dtype) (t : layout) : outcome layout :=
   if existsb (fun p => is_nil p) (leaves t) then Reject 20
-  else Ok (Node KSM3State [] [count_leaf; fst (rebuild t (map sm3_param (leaves t)))]).
+  else Ok (Node KSM3State [] [count_leaf; fst (rebuild t (map (sm3_param d) (leaves t)))]).
 
 Fixpoint accs_fit (p : list Z) (accs : list layout) : bool :=
   match p, accs with
@@ -29,20 +31,21 @@ Fixpoint accs_fit (p : list Z) (accs : list layout) : bool :=
   | _, _ => false
   end.
 
-Definition sm3_update_param (p : list Z) (l : layout) : outcome layout :=
+Definition sm3_update_param (d : dtype) (p : list Z) (l : layout) : outcome layout :=
   match l with
   | Node KSM3Param [] [Node KList [] accs; Node KQuantized _ [Leaf ms _; _; _]] =>
-      if accs_fit p accs && list_eqb_z ms p then Ok (sm3_param p) else Internal [70]
+      if accs_fit p accs && list_eqb_z ms p then Ok (sm3_param d p) else Internal [70]
   | _ => Internal [70]
   end.
 
-Definition sm3_update (t l : layout) : outcome layout :=
+Definition sm3_update (b : bugs) (d : dtype) (t l : layout) : outcome layout :=
+  if bB2 b && negb (dtype_eqb d F32) then Internal [42] else     (* dtype drift, not modelled *)
   match l with
   | Node KSM3State [] [Leaf [] I32; st] =>
       match collect t st with
       | None => Internal [89]
       | Some lls =>
-          do r <- map2o sm3_update_param (leaves t) lls;
+          do r <- map2o (sm3_update_param d) (leaves t) lls;
           Ok (Node KSM3State [] [count_leaf; fst (rebuild t r)])
       end
   | _ => Internal [89]
@@ -62,7 +65,8 @@ Record tfcfg := mkTF {
   tf_g_decay : Q; tf_g_eps : Q; tf_g_clip : Q; tf_g_minfac : Z; tf_g_mult : bool;
   tf_skip_gt : Z; tf_skip_rank1 : bool;
   tf_m_decay : Q; tf_m_wd : Q; tf_m_ema : bool; tf_m_after : bool;
-  tf_lr_callable : bool
+  tf_lr_callable : bool;
+  tf_pdt : dtype           (* dtype of the parameters *)
 }.
 
 Definition qle (a b : Q) : bool := Qle_bool a b.
@@ -255,12 +259,12 @@ Definition factored_dims (p : list Z) (minfac : Z) : option (nat * nat) :=
     let i2 := argmax_last rest 0 (-2) 0 in                    (* sorted_dims[-2] *)
     if nth i2 p 0 <? minfac then None else Some (i2, i1).
 
-Definition fact_rows (minfac : Z) (p : list Z) : layout :=
-  match factored_dims p minfac with Some (_, d0) => Leaf (remove_nth p d0) F32 | None => Leaf [1] F32 end.
-Definition fact_cols (minfac : Z) (p : list Z) : layout :=
-  match factored_dims p minfac with Some (d1, _) => Leaf (remove_nth p d1) F32 | None => Leaf [1] F32 end.
-Definition fact_v (minfac : Z) (p : list Z) : layout :=
-  match factored_dims p minfac with Some _ => Leaf [1] F32 | None => Leaf p F32 end.
+Definition fact_rows (dt : dtype) (minfac : Z) (p : list Z) : layout :=
+  match factored_dims p minfac with Some (_, d0) => Leaf (remove_nth p d0) dt | None => Leaf [1] dt end.
+Definition fact_cols (dt : dtype) (minfac : Z) (p : list Z) : layout :=
+  match factored_dims p minfac with Some (d1, _) => Leaf (remove_nth p d1) dt | None => Leaf [1] dt end.
+Definition fact_v (dt : dtype) (minfac : Z) (p : list Z) : layout :=
+  match factored_dims p minfac with Some _ => Leaf [1] dt | None => Leaf p dt end.
 
 Definition norm_state (c : tfcfg) (t : layout) : layout :=
   let g := tf_graft c in
@@ -271,8 +275,9 @@ Definition norm_state (c : tfcfg) (t : layout) : layout :=
     let mf := tf_g_minfac c in
     tuple_of
       [tuple_of ([Node KFactoredState []
-                       [count_leaf; fst (rebuild t (map (fact_rows mf) ps));
-                        fst (rebuild t (map (fact_cols mf) ps)); fst (rebuild t (map (fact_v mf) ps))];
+                       [count_leaf; fst (rebuild t (map (fact_rows (tf_pdt c) mf) ps));
+                        fst (rebuild t (map (fact_cols (tf_pdt c) mf) ps));
+                        fst (rebuild t (map (fact_v (tf_pdt c) mf) ps))];
                   empty_state] ++ (if tf_g_mult c then [empty_state] else []) ++ [empty_state]);
        empty_state].
 
@@ -308,7 +313,8 @@ Definition norm_update (c : tfcfg) (t n : layout) : outcome layout :=
     (if layout_eqb n (Node KRmsAcc [] [t]) then Ok n else Internal [63])
   else Ok n.
 
-Definition tf_update (c : tfcfg) (t l : layout) : outcome layout :=
+Definition tf_update (b : bugs) (c : tfcfg) (t l : layout) : outcome layout :=
+  if bB3 b && negb (dtype_eqb (tf_pdt c) F32) then Internal [43] else   (* dtype drift, not modelled *)
   if tf_direct c then so_update c t l
   else
     match l with
